@@ -1,4 +1,455 @@
 import Model.Proxy
+import Proofs.Lemmas.Proxy
+/-!
+# C18 — PROXY protocol headers are parsed exactly and never over-read
+
+Property theorems only. Model: `Model/Proxy.lean` (`slimta/util/proxyproto.py`).
+A socket is any byte stream plus any pattern of short reads of `recv_into`.
+-/
 namespace Slimta.C18
-theorem placeholder : (1 : Nat) = 1 := rfl
+open Slimta Slimta.Proxy
+
+/-- A v1 header line as the reader needs it: `PROXY ` + a non-empty body without LF + CRLF, at most
+    107 bytes (every line of the PROXY v1 grammar has this shape). -/
+structure LineV1 (l body : Bytes) : Prop where
+  eq : l = proxyPrefix ++ body ++ CRLF
+  noLF : ∀ b ∈ body, b ≠ 10
+  nonempty : body ≠ []
+  len : l.length ≤ 107
+
+theorem endsCRLF_append_crlf (x : Bytes) : endsCRLF (x ++ CRLF) = true := by
+  simp [endsCRLF, endsWith, List.isSuffixOf_iff_suffix]
+
+/-- No prefix longer than 8 bytes of such a line ends in CRLF, except the line itself. -/
+theorem LineV1.noEarly {l body : Bytes} (w : LineV1 l body) (pre suf : Bytes) (h : l = pre ++ suf)
+    (hp : 8 < pre.length) (hs : suf ≠ []) : endsCRLF pre = false := by
+  cases hc : endsCRLF pre with
+  | false => rfl
+  | true =>
+    exfalso
+    obtain ⟨t, rfl⟩ := endsCRLF_last hc
+    -- the LF of `pre` lies inside `proxyPrefix ++ body`
+    have e : proxyPrefix ++ body ++ CRLF = (t ++ [13, 10]) ++ suf := by rw [← w.eq, h]
+    have hlen : (t ++ [13, 10]).length ≤ (proxyPrefix ++ body).length + 1 := by
+      have := congrArg List.length e
+      have hs' : 0 < suf.length := by cases suf <;> simp_all
+      simp [CRLF] at this ⊢; omega
+    -- so byte number |t|+1 of the line is LF and sits in prefix/body or is the CR of the final CRLF
+    have hget : (proxyPrefix ++ body ++ CRLF)[t.length + 1]? = some 10 := by
+      rw [e]; simp
+    by_cases hin : t.length + 1 < (proxyPrefix ++ body).length
+    · rw [List.getElem?_append_left hin] at hget
+      by_cases hpp : t.length + 1 < proxyPrefix.length
+      · rw [List.getElem?_append_left hpp] at hget
+        simp [proxyPrefix] at hpp
+        have : t.length + 1 ≤ 5 := by omega
+        simp at hp
+        omega
+      · rw [List.getElem?_append_right (by omega)] at hget
+        have := List.mem_of_getElem? hget
+        exact w.noLF 10 this rfl
+    · have hidx : t.length + 1 = (proxyPrefix ++ body).length := by simp at hlen hin ⊢; omega
+      rw [List.getElem?_append_right (by omega)] at hget
+      simp [hidx, CRLF] at hget
+
+/-- **v1: exact parse, exact consumption.** A well-formed line followed by any payload, under any
+    short-read pattern: the outcome is the parse of exactly that line and the payload is left
+    unread. -/
+theorem v1_exact (ipo : IpOracle) (l body : Bytes) (w : LineV1 l body) (payload : Bytes) (short : List Nat) :
+    ∃ sh, processV1 ipo [] ⟨l ++ payload, short⟩ =
+      ((match parseV1 ipo l with | some (src, _) => Outcome.proceed src | none => .proceed .none),
+        ⟨payload, sh⟩) := by
+  have hl9 : 9 ≤ l.length := by
+    have := congrArg List.length w.eq
+    have hb : 0 < body.length := by
+      have := w.nonempty
+      cases body <;> simp_all
+    simp [proxyPrefix, CRLF] at this; omega
+  obtain ⟨sh1, h1⟩ := readN_enough (target := 8) (read := []) (s := ⟨l ++ payload, short⟩)
+    (by simp; omega)
+  simp only [List.length_nil, Nat.sub_zero, List.nil_append] at h1
+  have htake : (l ++ payload).take 8 = l.take 8 := by
+    rw [List.take_append_of_le_length (by omega)]
+  have hdrop : (l ++ payload).drop 8 = l.drop 8 ++ payload := by
+    rw [List.drop_append_of_le_length (by omega)]
+  rw [htake, hdrop] at h1
+  obtain ⟨sh2, h2⟩ := readLineLoop_exact l payload
+    (by rw [w.eq]; exact endsCRLF_append_crlf _) w.len (l.take 8) ⟨l.drop 8 ++ payload, sh1⟩ (l.drop 8)
+    (by simp) (by intro h; have := congrArg List.length h; simp at this; omega) rfl
+    (fun pre suf h hp hs => w.noEarly pre suf h (by simp at hp; omega) hs)
+  refine ⟨sh2, ?_⟩
+  simp only [processV1, readV1Line, h1, h2]
+  cases parseV1 ipo l with
+  | none => rfl
+  | some p => rfl
+
+/-- **v1: bounded consumption.** Whatever arrives, at most 107 bytes are taken from the stream. -/
+theorem v1_bounded (ipo : IpOracle) (s : Sock) :
+    s.stream.length - (processV1 ipo [] s).2.stream.length ≤ 107 ∧
+    ∃ got, s.stream = got ++ (processV1 ipo [] s).2.stream := by
+  unfold processV1 readV1Line
+  cases h1 : readN 8 [] s with
+  | none =>
+    have := readN_none h1
+    simp at this ⊢; omega
+  | some p =>
+    obtain ⟨r1, s1⟩ := p
+    obtain ⟨g1, hr1, hs1, hl1⟩ := readN_some h1
+    simp at hr1 hl1
+    subst hr1
+    simp only
+    cases h2 : readLineLoop r1 s1 with
+    | none =>
+      have hn := readLineLoop_none _ _ h2
+      simp only
+      refine ⟨?_, s.stream, by simp⟩
+      rw [hs1]; simp; omega
+    | some q =>
+      obtain ⟨r2, s2⟩ := q
+      obtain ⟨hb, g2, rfl, hs2⟩ := readLineLoop_bound _ _ _ _ (by omega) h2
+      simp only
+      have key : s.stream.length - s2.stream.length ≤ 107 ∧ ∃ got, s.stream = got ++ s2.stream := by
+        refine ⟨?_, r1 ++ g2, by rw [hs1, hs2]; simp⟩
+        rw [hs1, hs2]
+        simp at hb ⊢
+        omega
+      cases parseV1 ipo (r1 ++ g2) with
+      | none => exact key
+      | some p => exact key
+
+/-! ### v2 -/
+
+/-- What a v2 header with command nibble `cmd`, family/protocol byte `fp` and address block `ad`
+    (including any TLV tail) stands for. -/
+def decodeV2 (ntop6 : Bytes → Bytes) (cmd fp : Byte) (ad : Bytes) : Outcome :=
+  let fam := fp &&& 0xf0
+  let res : Option Addr :=
+    if fam == 0x10 then
+      if ad.length < 12 then none
+      else some (.ip (dotted (ad.take 4)) (be16 (ad.getD 8 0) (ad.getD 9 0)))
+    else if fam == 0x20 then
+      if ad.length < 36 then none
+      else some (.ip (ntop6 (ad.take 16)) (be16 (ad.getD 32 0) (ad.getD 33 0)))
+    else if fam == 0x30 then
+      if ad.length < 216 then none
+      else some (.unix (rstripNul (ad.take 108)))
+    else some .none
+  match res with
+  | none => .proceed .none
+  | some a => if cmd == 0 then .drop else .proceed a
+
+/-- **v2: exact parse, exact consumption.** Signature, version 2, command LOCAL or PROXY, a
+    declared length and exactly that many bytes of address block (with TLVs), then any payload,
+    under any short-read pattern: 16 + length bytes are consumed, the payload is left unread, LOCAL
+    drops the connection, PROXY yields the encoded source address. -/
+theorem v2_exact (ntop6 : Bytes → Bytes) (vc fp hi lo : Byte) (ad payload : Bytes) (short : List Nat)
+    (hver : vc &&& 0xf0 = 0x20) (hcmd : vc &&& 0x0f = 0 ∨ vc &&& 0x0f = 1)
+    (hlen : ad.length = be16 hi lo) :
+    ∃ sh, processV2 ntop6 [] ⟨sigV2 ++ [vc, fp, hi, lo] ++ ad ++ payload, short⟩ =
+      (decodeV2 ntop6 (vc &&& 0x0f) fp ad, ⟨payload, sh⟩) := by
+  obtain ⟨sh1, h1⟩ := readN_enough (target := 16) (read := [])
+    (s := ⟨sigV2 ++ [vc, fp, hi, lo] ++ ad ++ payload, short⟩) (by simp [sigV2])
+  have e1 : (sigV2 ++ [vc, fp, hi, lo] ++ ad ++ payload).take 16 = sigV2 ++ [vc, fp, hi, lo] := by
+    simp [sigV2]
+  have e2 : (sigV2 ++ [vc, fp, hi, lo] ++ ad ++ payload).drop 16 = ad ++ payload := by
+    simp [sigV2]
+  simp only [List.length_nil, Nat.sub_zero, List.nil_append, e1, e2] at h1
+  obtain ⟨sh2, h2⟩ := readN_enough (target := be16 hi lo) (read := []) (s := ⟨ad ++ payload, sh1⟩)
+    (by simp; omega)
+  simp only [List.length_nil, Nat.sub_zero, List.nil_append, ← hlen, List.take_left', List.drop_left'] at h2
+  have h2' : readN ad.length [] ⟨ad ++ payload, sh1⟩ = some (ad, ⟨payload, sh2⟩) := by
+    simpa using h2
+  refine ⟨sh2, ?_⟩
+  have hc2 : ¬ ((vc &&& 0x0f != 0 && vc &&& 0x0f != 1) = true) := by
+    rcases hcmd with h | h <;> simp [h]
+  unfold processV2
+  simp only [h1]
+  have t12 : (sigV2 ++ [vc, fp, hi, lo]).take 12 = sigV2 := by simp [sigV2]
+  have g12 : (sigV2 ++ [vc, fp, hi, lo]).getD 12 0 = vc := by simp [sigV2]
+  have g13 : (sigV2 ++ [vc, fp, hi, lo]).getD 13 0 = fp := by simp [sigV2]
+  have g14 : (sigV2 ++ [vc, fp, hi, lo]).getD 14 0 = hi := by simp [sigV2]
+  have g15 : (sigV2 ++ [vc, fp, hi, lo]).getD 15 0 = lo := by simp [sigV2]
+  simp only [t12, g12, g13, g14, g15, bne_self_eq_false, Bool.false_eq_true, if_false, hver, hc2,
+    ← hlen, h2']
+  unfold decodeV2
+  simp only
+  split
+  · rename_i heq; rw [heq]
+  · rename_i a heq; rw [heq]; simp only; split <;> rfl
+
+/-- **v2: bounded consumption.** Whatever arrives, at most 16 bytes plus the declared length are
+    taken from the stream (all of it only when it ends before that). -/
+theorem v2_bounded (ntop6 : Bytes → Bytes) (s : Sock) :
+    s.stream.length - (processV2 ntop6 [] s).2.stream.length
+        ≤ 16 + be16 (s.stream.getD 14 0) (s.stream.getD 15 0) ∧
+    ∃ got, s.stream = got ++ (processV2 ntop6 [] s).2.stream := by
+  unfold processV2
+  cases h1 : readN 16 [] s with
+  | none =>
+    have := readN_none h1
+    simp at this ⊢; omega
+  | some p =>
+    obtain ⟨hdr, s1⟩ := p
+    obtain ⟨g1, hr1, hs1, hl1⟩ := readN_some h1
+    simp at hr1 hl1
+    subst hr1
+    have hP1 : s.stream.length - s1.stream.length ≤ 16 + be16 (s.stream.getD 14 0) (s.stream.getD 15 0) ∧
+        ∃ got, s.stream = got ++ s1.stream := by
+      refine ⟨?_, hdr, hs1⟩
+      rw [hs1]; simp; omega
+    have hd14 : s.stream.getD 14 0 = hdr.getD 14 0 := by
+      rw [hs1]; simp [List.getD, List.getElem?_append_left (show 14 < hdr.length by omega)]
+    have hd15 : s.stream.getD 15 0 = hdr.getD 15 0 := by
+      rw [hs1]; simp [List.getD, List.getElem?_append_left (show 15 < hdr.length by omega)]
+    simp only
+    split
+    · exact hP1
+    · split
+      · exact hP1
+      · split
+        · exact hP1
+        · cases h2 : readN (be16 (hdr.getD 14 0) (hdr.getD 15 0)) [] s1 with
+          | none =>
+            have := readN_none h2
+            simp only
+            refine ⟨?_, s.stream, by simp⟩
+            rw [hd14, hd15, hs1]
+            simp at this ⊢; omega
+          | some q =>
+            obtain ⟨ad, s2⟩ := q
+            obtain ⟨g2, hr2, hs2, hl2⟩ := readN_some h2
+            simp at hr2 hl2
+            subst hr2
+            have hP2 : s.stream.length - s2.stream.length ≤ 16 + be16 (s.stream.getD 14 0) (s.stream.getD 15 0) ∧
+                ∃ got, s.stream = got ++ s2.stream := by
+              refine ⟨?_, hdr ++ ad, by rw [hs1, hs2]; simp⟩
+              rw [hd14, hd15, hs1, hs2]; simp; omega
+            simp only
+            split
+            · exact hP2
+            · split <;> exact hP2
+
+/-- The v2 parser as a function of the byte stream alone. -/
+def specV2 (ntop6 : Bytes → Bytes) (all : Bytes) : Outcome × Bytes :=
+  if all.length < 16 then (.proceed .none, [])
+  else
+    let hdr := all.take 16
+    let rest := all.drop 16
+    if hdr.take 12 != sigV2 then (.proceed .none, rest)
+    else if hdr.getD 12 0 &&& 0xf0 != 0x20 then (.proceed .none, rest)
+    else if hdr.getD 12 0 &&& 0x0f != 0 && hdr.getD 12 0 &&& 0x0f != 1 then (.proceed .none, rest)
+    else
+      let alen := be16 (hdr.getD 14 0) (hdr.getD 15 0)
+      if rest.length < alen then (.proceed .none, [])
+      else (decodeV2 ntop6 (hdr.getD 12 0 &&& 0x0f) (hdr.getD 13 0) (rest.take alen), rest.drop alen)
+
+/-- **v2: the result does not depend on how `recv_into` cuts the stream** (nor on how many bytes
+    the version detector had already peeked): outcome and unread bytes are a function of the byte
+    stream. -/
+theorem v2_short_read_independent (ntop6 : Bytes → Bytes) (init : Bytes) (s : Sock)
+    (hinit : init.length ≤ 16) :
+    ((processV2 ntop6 init s).1, (processV2 ntop6 init s).2.stream) = specV2 ntop6 (init ++ s.stream) := by
+  unfold processV2 specV2
+  cases h1 : readN 16 init s with
+  | none =>
+    have := readN_none h1
+    have hlt : (init ++ s.stream).length < 16 := by simp; omega
+    rw [if_pos hlt]
+  | some p =>
+    obtain ⟨hdr, s1⟩ := p
+    obtain ⟨g1, hr1, hs1, hl1⟩ := readN_some h1
+    have hlen : hdr.length = 16 := by rw [hr1]; simp; omega
+    have hall : init ++ s.stream = hdr ++ s1.stream := by rw [hs1, hr1]; simp
+    have hnl : ¬ (init ++ s.stream).length < 16 := by rw [hall]; simp; omega
+    have ht : (init ++ s.stream).take 16 = hdr := by rw [hall, ← hlen]; simp
+    have hd : (init ++ s.stream).drop 16 = s1.stream := by rw [hall, ← hlen]; simp
+    simp only [hnl, if_false, ht, hd]
+    split
+    · rfl
+    · split
+      · rfl
+      · split
+        · rfl
+        · cases h2 : readN (be16 (hdr.getD 14 0) (hdr.getD 15 0)) [] s1 with
+          | none =>
+            have := readN_none h2
+            simp only [List.length_nil, Nat.sub_zero] at this
+            rw [if_pos this]
+          | some q =>
+            obtain ⟨ad, s2⟩ := q
+            obtain ⟨g2, hr2, hs2, hl2⟩ := readN_some h2
+            simp only [List.nil_append, List.length_nil, Nat.sub_zero] at hr2 hl2
+            subst hr2
+            have hnl2 : ¬ s1.stream.length < be16 (hdr.getD 14 0) (hdr.getD 15 0) := by
+              rw [hs2, List.length_append, hl2]; omega
+            have ht2 : s1.stream.take (be16 (hdr.getD 14 0) (hdr.getD 15 0)) = ad := by
+              rw [hs2, ← hl2]; simp
+            have hd2 : s1.stream.drop (be16 (hdr.getD 14 0) (hdr.getD 15 0)) = s2.stream := by
+              rw [hs2, ← hl2]; simp
+            simp only [hnl2, if_false, ht2, hd2]
+            unfold decodeV2
+            simp only
+            split
+            · rename_i heq; rw [heq]
+            · rename_i a heq; rw [heq]; simp only; split <;> rfl
+
+/-- **Version auto-detection, v1.** When the first 8 bytes begin with `PROXY ` the dispatcher
+    behaves exactly like the v1 handler on the same socket. -/
+theorem autodetect_v1 (ipo : IpOracle) (ntop6 : Bytes → Bytes) (s : Sock) (i8 : Bytes) (s1 : Sock)
+    (hread : readN 8 [] s = some (i8, s1)) (hpre : proxyPrefix.isPrefixOf i8 = true) :
+    handle ipo ntop6 s = handleV1 ipo s := by
+  obtain ⟨g, hg, hs, hl⟩ := readN_some hread
+  simp at hg hl
+  subst hg
+  have h8 : readN 8 i8 s1 = some (i8, s1) := by
+    rw [readN]; simp [hl]
+  simp only [handle, handleV1, hread, hpre, if_true, processV1, readV1Line, h8]
+
+/-- **Version auto-detection, v2.** When the first 8 bytes are the start of the v2 signature the
+    dispatcher gives the outcome and leaves the bytes that the v2 handler would. -/
+theorem autodetect_v2 (ipo : IpOracle) (ntop6 : Bytes → Bytes) (s : Sock) (i8 : Bytes) (s1 : Sock)
+    (hread : readN 8 [] s = some (i8, s1)) (hsig : i8 = sigV2.take 8) :
+    (handle ipo ntop6 s).1 = (handleV2 ntop6 s).1 ∧
+    (handle ipo ntop6 s).2.stream = (handleV2 ntop6 s).2.stream := by
+  obtain ⟨g, hg, hs, hl⟩ := readN_some hread
+  simp at hg hl
+  subst hg
+  subst hsig
+  have hnp : proxyPrefix.isPrefixOf (sigV2.take 8) = false := by decide
+  have hh : handle ipo ntop6 s = processV2 ntop6 (sigV2.take 8) s1 := by
+    simp only [handle, hread, hnp]
+    simp
+  have e1 := v2_short_read_independent ntop6 (sigV2.take 8) s1 (by decide)
+  have e2 := v2_short_read_independent ntop6 [] s (by simp)
+  rw [← hs] at e1
+  simp only [List.nil_append] at e2
+  rw [hh, handleV2]
+  have := e1.trans e2.symm
+  simp only [Prod.mk.injEq] at this
+  exact this
+
+/-- **Neither signature**: the connection proceeds with the invalid address and only the 8
+    peeked bytes are consumed. -/
+theorem autodetect_neither (ipo : IpOracle) (ntop6 : Bytes → Bytes) (s : Sock) (i8 : Bytes) (s1 : Sock)
+    (hread : readN 8 [] s = some (i8, s1)) (hpre : proxyPrefix.isPrefixOf i8 = false)
+    (hsig : i8 ≠ sigV2.take 8) :
+    handle ipo ntop6 s = (.proceed .none, s1) := by
+  simp [handle, hread, hpre, hsig]
+
+/-! ### the v1 grammar -/
+
+def kw : Family → Bytes
+  | .inet => kwTCP4
+  | .inet6 => kwTCP6
+
+theorem body_of_line (body : Bytes) :
+    ((proxyPrefix ++ body ++ CRLF).drop 6).take ((proxyPrefix ++ body ++ CRLF).length - 8) = body := by
+  simp [proxyPrefix, CRLF]
+
+/-- **v1 completeness: the encoded addresses are returned.** A `TCP4`/`TCP6` line whose four
+    fields contain no space parses to exactly the addresses the resolver gives for the two IP
+    texts and the decimal values of the two port fields (and is refused if any of them is not
+    acceptable). -/
+theorem parse_tcp (ipo : IpOracle) (fam : Family) (a1 a2 p1 p2 : Bytes)
+    (h1 : ∀ b ∈ a1, b ≠ 32) (h2 : ∀ b ∈ a2, b ≠ 32) (h3 : ∀ b ∈ p1, b ≠ 32) (h4 : ∀ b ∈ p2, b ≠ 32) :
+    parseV1 ipo (proxyPrefix ++ (kw fam ++ 32 :: (a1 ++ 32 :: (a2 ++ 32 :: (p1 ++ 32 :: p2)))) ++ CRLF) =
+      match ipo fam a1, parsePort p1, ipo fam a2, parsePort p2 with
+      | some s, some sp, some d, some dp => some (.ip s sp, .ip d dp)
+      | _, _, _, _ => none := by
+  have hk : ∀ b ∈ kw fam, b ≠ 32 := by cases fam <;> simp [kw, kwTCP4, kwTCP6]
+  unfold parseV1
+  rw [body_of_line]
+  have hpre : proxyPrefix.isPrefixOf (proxyPrefix ++ (kw fam ++ 32 :: (a1 ++ 32 :: (a2 ++ 32 :: (p1 ++ 32 :: p2)))) ++ CRLF) = true := by
+    simp [List.isPrefixOf_iff_prefix, List.append_assoc]
+  rw [hpre, endsCRLF_append_crlf]
+  simp only [Bool.and_self, if_true]
+  rw [splitSP_field _ _ hk, splitSP_field _ _ h1, splitSP_field _ _ h2, splitSP_field _ _ h3,
+    splitSP_noSP _ h4]
+  cases fam <;> simp [kw, kwTCP4, kwTCP6, kwUNKNOWN] <;> rfl
+
+/-- `UNKNOWN` lines (with anything after the keyword) give the unknown address. -/
+theorem parse_unknown (ipo : IpOracle) (rest : Bytes) :
+    parseV1 ipo (proxyPrefix ++ (kwUNKNOWN ++ 32 :: rest) ++ CRLF) = some (.none, .none) ∧
+    parseV1 ipo (proxyPrefix ++ kwUNKNOWN ++ CRLF) = some (.none, .none) := by
+  have hk : ∀ b ∈ kwUNKNOWN, b ≠ 32 := by simp [kwUNKNOWN]
+  constructor
+  · unfold parseV1
+    rw [body_of_line]
+    have hpre : proxyPrefix.isPrefixOf (proxyPrefix ++ (kwUNKNOWN ++ 32 :: rest) ++ CRLF) = true := by
+      simp [List.isPrefixOf_iff_prefix, List.append_assoc]
+    rw [hpre, endsCRLF_append_crlf]
+    simp only [Bool.and_self, if_true]
+    rw [splitSP_field _ _ hk]
+    simp
+  · unfold parseV1
+    rw [body_of_line]
+    have hpre : proxyPrefix.isPrefixOf (proxyPrefix ++ kwUNKNOWN ++ CRLF) = true := by
+      simp [List.isPrefixOf_iff_prefix, List.append_assoc]
+    rw [hpre, endsCRLF_append_crlf]
+    simp only [Bool.and_self, if_true]
+    rw [splitSP_noSP _ hk]
+    simp
+
+/-- **v1 soundness: nothing malformed is accepted.** If the parser returns an IP source address
+    then the line starts with `PROXY `, ends in CRLF, and its body is exactly five fields separated
+    by single spaces: a family keyword, two addresses the resolver accepts for that family, and two
+    ports made of ASCII digits only with value at most 65535. Every other line gives the invalid
+    address. -/
+theorem parse_sound (ipo : IpOracle) (line : Bytes) (s : Bytes) (sp : Nat) (d : Addr)
+    (h : parseV1 ipo line = some (.ip s sp, d)) :
+    proxyPrefix.isPrefixOf line = true ∧ endsCRLF line = true ∧
+    ∃ fam a1 a2 p1 p2 ds dp,
+      (line.drop 6).take (line.length - 8) = kw fam ++ 32 :: (a1 ++ 32 :: (a2 ++ 32 :: (p1 ++ 32 :: p2))) ∧
+      d = .ip ds dp ∧ ipo fam a1 = some s ∧ ipo fam a2 = some ds ∧
+      (p1 ≠ [] ∧ p1.all isDigit = true ∧ sp = decVal p1 ∧ sp ≤ 65535) ∧
+      (p2 ≠ [] ∧ p2.all isDigit = true ∧ dp = decVal p2 ∧ dp ≤ 65535) := by
+  unfold parseV1 at h
+  split at h
+  · rename_i hc
+    simp only [Bool.and_eq_true] at hc
+    refine ⟨hc.1, hc.2, ?_⟩
+    have hj := joinSP_splitSP ((line.drop 6).take (line.length - 8))
+    simp only at h
+    split at h
+    · simp at h
+    · rename_i p0 ps hsplit
+      rw [hsplit] at hj
+      split at h
+      · simp at h
+      · rename_i hnu
+        split at h
+        · rename_i fam a1 a2 p1 p2 hfam
+          split at h
+          · rename_i s' sp' d' dp' e1 e2 e3 e4
+            simp at h
+            obtain ⟨⟨rfl, rfl⟩, rfl⟩ := h
+            have hp0 : p0 = kw fam := by
+              simp at hfam
+              split at hfam
+              · rename_i h4; simp at hfam; subst hfam; simpa [kw] using h4
+              · split at hfam
+                · rename_i h6; simp at hfam; subst hfam; simpa [kw] using h6
+                · simp at hfam
+            refine ⟨fam, a1, a2, p1, p2, d', dp', ?_, rfl, e1, e3, parsePort_some e2, parsePort_some e4⟩
+            rw [← hj, hp0]
+            simp [joinSP]
+          · simp at h
+        · simp at h
+  · simp at h
+
+/-! ### non-vacuity -/
+
+example : LineV1 (proxyPrefix ++ (kwTCP4 ++ 32 :: ([49, 46, 50, 46, 51, 46, 52] ++ 32 ::
+    ([53, 46, 54, 46, 55, 46, 56] ++ 32 :: ([50, 53] ++ 32 :: [53, 56, 55])))) ++ CRLF)
+    (kwTCP4 ++ 32 :: ([49, 46, 50, 46, 51, 46, 52] ++ 32 :: ([53, 46, 54, 46, 55, 46, 56] ++ 32 :: ([50, 53] ++ 32 :: [53, 56, 55])))) :=
+  ⟨rfl, by decide, by decide, by decide⟩
+
+example : parsePort [50, 53] = some 25 ∧ parsePort [43, 50, 53] = none ∧ parsePort [54, 53, 53, 51, 54] = none := by
+  decide
+
+example : decodeV2 (fun _ => []) 1 0x11 [1, 2, 3, 4, 5, 6, 7, 8, 0, 25, 2, 75]
+    = .proceed (.ip [49, 46, 50, 46, 51, 46, 52] 25) := by decide
+
+example : decodeV2 (fun _ => []) 0 0x11 [1, 2, 3, 4, 5, 6, 7, 8, 0, 25, 2, 75] = .drop := by decide
+
 end Slimta.C18
